@@ -69,8 +69,8 @@ theorem readLayout_set_truncated (fs : FS) (q : Path) (dt : DT) (be sc : Bool) :
 def Img.matOf (im : Img) : Mat :=
   match im.arr with
   | .owned d _ => .copy d
-  | .view inst => .ref im.src im.srcDt im.srcBe im.srcScaled inst
-  | .proxy => if im.mapped then .ref im.src im.srcDt im.srcBe im.srcScaled true else .copy im.data
+  | .view vk => .ref im.src im.srcDt im.srcBe im.srcScaled vk
+  | .proxy => if im.mapped then .ref im.src im.srcDt im.srcBe im.srcScaled .inst else .copy im.data
 
 /-- the array handed out reads the source file: a memmap or a view of one -/
 def Img.fileMapped (im : Img) : Bool :=
@@ -83,7 +83,7 @@ theorem materialise_ok {fs : FS} {im : Img} (h : ImgOk fs im) : materialise fs i
   unfold materialise Img.matOf
   cases ha : im.arr with
   | owned d fl => rfl
-  | view inst => rfl
+  | view v => rfl
   | proxy =>
       have hb : im.backed = true := by simp [Img.backed, Arr.backed, ha]
       simp only [h.1 hb]
@@ -93,7 +93,7 @@ theorem deref_materialised {fs : FS} {im : Img} (h : ImgOk fs im) : deref fs im.
   unfold Img.matOf
   cases ha : im.arr with
   | owned d fl => simp [deref, h.2.1 d fl ha]
-  | view inst =>
+  | view v =>
       have hb : im.backed = true := by simp [Img.backed, Arr.backed, ha]
       simp [deref, h.1 hb]
   | proxy =>
@@ -111,15 +111,15 @@ theorem materialise_deref {fs : FS} {im : Img} (h : ImgOk fs im) :
 /-- the shape of `matOf`: a copy of the image data, or a reference to the source with the proxy's layout -/
 theorem matOf_cases (im : Img) (fs : FS) (h : ImgOk fs im) :
     (im.matOf = .copy im.data ∧ im.fileMapped = false) ∨
-    (∃ inst, im.matOf = .ref im.src im.srcDt im.srcBe im.srcScaled inst ∧ im.fileMapped = true ∧ im.backed = true ∧
-      (im.arr = .proxy → inst = true) ∧ (∀ i, im.arr = .view i → inst = i)) := by
+    (∃ vk, im.matOf = .ref im.src im.srcDt im.srcBe im.srcScaled vk ∧ im.fileMapped = true ∧ im.backed = true ∧
+      (im.arr = .proxy → vk = .inst) ∧ (∀ i, im.arr = .view i → vk = i)) := by
   unfold Img.matOf Img.fileMapped Img.backed Arr.backed
   cases ha : im.arr with
   | owned d fl => left; simp [h.2.1 d fl ha]
-  | view inst => right; exact ⟨inst, rfl, rfl, rfl, fun h => by simp at h, fun i hi => by simp at hi; exact hi⟩
+  | view v => right; exact ⟨v, rfl, rfl, rfl, fun h => by simp at h, fun i hi => by simp at hi; exact hi⟩
   | proxy =>
       by_cases hm : im.mapped = true
-      · right; exact ⟨true, by simp [hm], hm, rfl, fun _ => rfl, fun i hi => by simp at hi⟩
+      · right; exact ⟨.inst, by simp [hm], hm, rfl, fun _ => rfl, fun i hi => by simp at hi⟩
       · left; simp [hm]
 
 /-! ### `update_header` -/
@@ -151,11 +151,11 @@ theorem outAff_eq (im : Img) (q : Path) : outAff im q = im.aff := by
 /-! ### `to_file_map` under the three guards -/
 
 theorem writeTo_cur {fs : FS} {im : Img} (h : ImgOk fs im) (q : Path) :
-    writeTo .base fs im q = (.saved (savedContent im q), fs.set q (some (.intact (savedContent im q)))) := by
+    writeTo .owners fs im q = (.saved (savedContent im q), fs.set q (some (.intact (savedContent im q)))) := by
   unfold writeTo
   rw [materialise_ok h]
   have hd := deref_materialised h
-  rcases matOf_cases im fs h with ⟨hm, _⟩ | ⟨inst, hm, _, _, _⟩
+  rcases matOf_cases im fs h with ⟨hm, _⟩ | ⟨vk0, hm, _, _, _⟩
   · simp [hm, deref, FS.set_set, savedContent, outAff_eq]
   · rw [hm] at hd
     simp only [deref] at hd
@@ -165,17 +165,17 @@ theorem writeTo_cur {fs : FS} {im : Img} (h : ImgOk fs im) (q : Path) :
     target is the mapped source itself -/
 theorem writeTo_guard_eq {fs : FS} {im : Img} (h : ImgOk fs im) (g : Guard) {q : Path}
     (hg : im.fileMapped = false ∨ q ≠ im.src ∨
-      ∃ inst, im.matOf = .ref im.src im.srcDt im.srcBe im.srcScaled inst ∧ g.copies inst = true) :
-    writeTo g fs im q = writeTo .base fs im q := by
+      ∃ vk, im.matOf = .ref im.src im.srcDt im.srcBe im.srcScaled vk ∧ g.copies vk = true) :
+    writeTo g fs im q = writeTo .owners fs im q := by
   rw [writeTo_cur h]
   unfold writeTo
   rw [materialise_ok h]
   have hd := deref_materialised h
-  rcases matOf_cases im fs h with ⟨hm, hf⟩ | ⟨inst, hm, hf, _, _⟩
+  rcases matOf_cases im fs h with ⟨hm, hf⟩ | ⟨vk0, hm, hf, _, _⟩
   · simp [hm, deref, FS.set_set, savedContent, outAff_eq]
   · rw [hm] at hd
     simp only [deref] at hd
-    cases hc : g.copies inst
+    cases hc : g.copies vk0
     · -- not copied: the array is read after the target was truncated — fine iff the target is another file
       have hq : q ≠ im.src := by
         rcases hg with hg | hg | ⟨i, hi, hgi⟩
@@ -191,8 +191,8 @@ theorem writeTo_guard_eq {fs : FS} {im : Img} (h : ImgOk fs im) (g : Guard) {q :
 
 /-- a file-backed array that the guard does not copy, saved onto the file it maps, is read through the truncated
     file -/
-theorem writeTo_guard_self {fs : FS} {im : Img} (h : ImgOk fs im) (g : Guard) (inst : Bool)
-    (hm : im.matOf = .ref im.src im.srcDt im.srcBe im.srcScaled inst) (hg : g.copies inst = false) :
+theorem writeTo_guard_self {fs : FS} {im : Img} (h : ImgOk fs im) (g : Guard) (vk : VKind)
+    (hm : im.matOf = .ref im.src im.srcDt im.srcBe im.srcScaled vk) (hg : g.copies vk = false) :
     (writeTo g fs im im.src).1 = .bad := by
   unfold writeTo
   rw [materialise_ok h]
@@ -200,15 +200,15 @@ theorem writeTo_guard_self {fs : FS} {im : Img} (h : ImgOk fs im) (g : Guard) (i
 
 /-- original logic: identical to the current one unless the target is the mapped source itself -/
 theorem writeTo_orig_off_source {fs : FS} {im : Img} (h : ImgOk fs im) {q : Path} (hq : q ≠ im.src) :
-    writeTo .none fs im q = writeTo .base fs im q :=
+    writeTo .none fs im q = writeTo .owners fs im q :=
   writeTo_guard_eq h .none (Or.inr (Or.inl hq))
 
 /-- original logic: saving a memory-mapped image onto its own source reads through the truncated file -/
 theorem writeTo_orig_self {fs : FS} {im : Img} (h : ImgOk fs im) (hm : im.fileMapped = true) :
     (writeTo .none fs im im.src).1 = .bad := by
-  rcases matOf_cases im fs h with ⟨_, hf⟩ | ⟨inst, hmat, _, _, _⟩
+  rcases matOf_cases im fs h with ⟨_, hf⟩ | ⟨vk0, hmat, _, _, _⟩
   · rw [hm] at hf; exact absurd hf (by simp)
-  · exact writeTo_guard_self h .none inst hmat rfl
+  · exact writeTo_guard_self h .none vk0 hmat rfl
 
 /-! ### preservation of the invariant -/
 
@@ -266,7 +266,7 @@ theorem getFdata_fresh {fs : FS} {im : Img} (h : ImgOk fs im) (w : Bool) :
   simp only [materialise_ok h, deref_materialised h]
   have own : ImgOk fs { im with cache := .owned im.data w } :=
     ImgOk_cache h _ (fun d' w' hd' => by simp at hd'; exact hd'.1.symm) (fun w' hw' => by simp at hw')
-  rcases matOf_cases im fs h with ⟨hm, _⟩ | ⟨inst, hm, hf, hb, _⟩
+  rcases matOf_cases im fs h with ⟨hm, _⟩ | ⟨vk0, hm, hf, hb, _⟩
   · exact ⟨.owned im.data w, by simp [hm], own, fun w' hw' => by simp at hw'⟩
   · have ali : ImgOk fs { im with cache := .alias w } :=
       ImgOk_cache h _ (fun d' w' hd' => by simp at hd') (fun _ _ => hb)
@@ -330,57 +330,64 @@ theorem rewrapped_ok {fs : FS} {im : Img} (h : ImgOk fs im) (a : Arr)
     tag, class and source -/
 theorem wrapArr_ok {fs : FS} {im : Img} (h : ImgOk fs im) (k : Wrap) :
     ∃ a, wrapArr fs im k = some (rewrapped im a) ∧ ImgOk fs (rewrapped im a) := by
-  have hback_of_mapped : im.fileMapped = true → im.backed = true := by
-    unfold Img.fileMapped Img.backed Arr.backed; cases im.arr <;> simp
+  have own : ImgOk fs (rewrapped im (.owned im.data im.arrFloat)) :=
+    rewrapped_ok h _ (fun d fl e => by simp at e; exact e.1.symm) (fun e => by simp [Arr.backed] at e)
   have generic : ∀ k' : Wrap, k' ≠ .proxy → k' ≠ .fdata →
-      ∃ a, (match materialise fs im with
+      ∃ a, (if k' = .rawMap ∧ im.arr = .proxy ∧ im.src.compressed = false ∧ im.srcScaled = false then
+          some (rewrapped im (.view .hidden))
+        else
+        match materialise fs im with
         | none => none
         | some (.copy d) => some (rewrapped im (.owned d im.arrFloat))
-        | some (.ref p dt be sc inst) =>
+        | some (.ref p dt be sc vk) =>
             if k' = .copy then (readLayout fs p dt be sc).map (fun d => rewrapped im (.owned d im.arrFloat))
-            else some (rewrapped im (.view (inst && k' == .mapInst)))) = some (rewrapped im a) ∧
+            else if k' = .mapInst then some (rewrapped im (.view vk))
+            else if k' = .plainView then some (rewrapped im (.view (if vk = .hidden then .hidden else .plain)))
+            else some (rewrapped im (.view .hidden))) = some (rewrapped im a) ∧
         ImgOk fs (rewrapped im a) := by
     intro k' _ _
-    rw [materialise_ok h]
-    have hd := deref_materialised h
-    rcases matOf_cases im fs h with ⟨hm, _⟩ | ⟨inst, hm, hf, hb, _⟩
-    · refine ⟨.owned im.data im.arrFloat, by simp [hm], rewrapped_ok h _ (fun d fl e => by simp at e; exact e.1.symm) ?_⟩
-      intro e; simp [Arr.backed] at e
-    · rw [hm] at hd
-      simp only [deref] at hd
-      by_cases hk : k' = .copy
-      · refine ⟨.owned im.data im.arrFloat, by simp [hm, hk, hd],
-          rewrapped_ok h _ (fun d fl e => by simp at e; exact e.1.symm) ?_⟩
-        intro e; simp [Arr.backed] at e
-      · exact ⟨.view (inst && k' == .mapInst), by simp [hm, hk],
-          rewrapped_ok h _ (fun d fl e => by simp at e) (fun _ => hb)⟩
+    by_cases hraw : k' = .rawMap ∧ im.arr = .proxy ∧ im.src.compressed = false ∧ im.srcScaled = false
+    · rw [if_pos hraw]
+      have hb : im.backed = true := by simp [Img.backed, Arr.backed, hraw.2.1]
+      exact ⟨.view .hidden, rfl, rewrapped_ok h _ (fun d fl e => by simp at e) (fun _ => hb)⟩
+    · rw [if_neg hraw, materialise_ok h]
+      have hd := deref_materialised h
+      rcases matOf_cases im fs h with ⟨hm, _⟩ | ⟨vk0, hm, hf, hb, _⟩
+      · exact ⟨.owned im.data im.arrFloat, by simp [hm], own⟩
+      · rw [hm] at hd
+        simp only [deref] at hd
+        have vw : ∀ v, ImgOk fs (rewrapped im (.view v)) := fun v =>
+          rewrapped_ok h _ (fun d fl e => by simp at e) (fun _ => hb)
+        by_cases hk : k' = .copy
+        · exact ⟨.owned im.data im.arrFloat, by simp [hm, hk, hd], own⟩
+        · by_cases hk2 : k' = .mapInst
+          · exact ⟨.view vk0, by simp [hm, hk2], vw _⟩
+          · by_cases hk3 : k' = .plainView
+            · exact ⟨.view (if vk0 = .hidden then .hidden else .plain), by simp [hm, hk3], vw _⟩
+            · exact ⟨.view .hidden, by simp [hm, hk, hk2, hk3], vw _⟩
   cases k with
   | proxy =>
       exact ⟨im.arr, rfl, rewrapped_ok h _ (fun d fl e => h.2.1 d fl e) (fun e => e)⟩
   | fdata =>
       unfold wrapArr
-      obtain ⟨ca, hg, hok', _⟩ : ∃ ca, getFdata fs im false = some (im.data, { im with cache := ca }) ∧
-          ImgOk fs { im with cache := ca } ∧ True := by
-        obtain ⟨ca, h1, h2⟩ := getFdata_ok h false
-        exact ⟨ca, h1, h2, trivial⟩
+      obtain ⟨ca, hg, hok'⟩ := getFdata_ok h false
       rw [hg]
       simp only
+      have ownf : ImgOk fs (rewrapped im (.owned im.data true)) :=
+        rewrapped_ok h _ (fun d fl e => by simp at e; exact e.1.symm) (fun e => by simp [Arr.backed] at e)
       cases hca : ca with
       | alias w =>
           cases w
-          · exact ⟨.view true, rfl, rewrapped_ok h _ (fun d fl e => by simp at e)
+          · exact ⟨_, rfl, rewrapped_ok h _ (fun d fl e => by simp at e)
               (fun _ => by have := hok'.2.2.2 false (by simp [hca]); simpa [Img.backed] using this)⟩
-          · exact ⟨.owned im.data true, rfl, rewrapped_ok h _ (fun d fl e => by simp at e; exact e.1.symm)
-              (fun e => by simp [Arr.backed] at e)⟩
-      | owned d w =>
-          exact ⟨.owned im.data true, rfl, rewrapped_ok h _ (fun d fl e => by simp at e; exact e.1.symm)
-            (fun e => by simp [Arr.backed] at e)⟩
-      | none =>
-          exact ⟨.owned im.data true, rfl, rewrapped_ok h _ (fun d fl e => by simp at e; exact e.1.symm)
-            (fun e => by simp [Arr.backed] at e)⟩
+          · exact ⟨.owned im.data true, rfl, ownf⟩
+      | owned d w => exact ⟨.owned im.data true, rfl, ownf⟩
+      | none => exact ⟨.owned im.data true, rfl, ownf⟩
   | plainView => exact generic .plainView (by simp) (by simp)
   | mapInst => exact generic .mapInst (by simp) (by simp)
   | copy => exact generic .copy (by simp) (by simp)
+  | hiddenView => exact generic .hiddenView (by simp) (by simp)
+  | rawMap => exact generic .rawMap (by simp) (by simp)
 
 theorem wrapImg_of_wrapArr {fs : FS} {im im' : Img} {k : Wrap} (h1 : wrapArr fs im k = some im') (h2 : ImgOk fs im') :
     wrapImg fs im k = some im' := by
@@ -422,15 +429,15 @@ def StepSpec (s : St) (op : Op) (r : Out × St) : Prop :=
    | _, _ => r.2.fs = s.fs)
 
 theorem save_cur {fs : FS} {im : Img} (h : ImgOk fs im) (q : Path) :
-    save .base fs im q = (.saved (savedContent im q), fs.set q (some (.intact (savedContent im q))),
+    save .owners fs im q = (.saved (savedContent im q), fs.set q (some (.intact (savedContent im q))),
       if outCls im.cls q.ext = im.cls then { im with fname := some q, xf := outXF im q } else im) := by
   unfold save
   rw [writeTo_cur h]
 
 theorem step_load_aux (fs : FS) (img : Option Img) (p : Path) (mm : Bool) (hfs : FSwf fs)
     (himg : ∀ im, img = some im → ImgOk fs im) :
-    StepSpec ⟨fs, img⟩ (.load p mm) (step .base ⟨fs, img⟩ (.load p mm)) ∧
-      WF (step .base ⟨fs, img⟩ (.load p mm)).2 := by
+    StepSpec ⟨fs, img⟩ (.load p mm) (step .owners ⟨fs, img⟩ (.load p mm)) ∧
+      WF (step .owners ⟨fs, img⟩ (.load p mm)).2 := by
   simp only [step]
   cases hl : load fs p mm with
   | none => exact ⟨⟨by simp, by cases img <;> rfl⟩, hfs, himg⟩
@@ -442,7 +449,7 @@ theorem step_load_aux (fs : FS) (img : Option Img) (p : Path) (mm : Bool) (hfs :
       exact load_ok hl
 
 theorem step_safe_aux (s : St) (op : Op) (hw : WF s) (ha : allowed s op = true) :
-    StepSpec s op (step .base s op) ∧ WF (step .base s op).2 := by
+    StepSpec s op (step .owners s op) ∧ WF (step .owners s op).2 := by
   obtain ⟨fs, img⟩ := s
   obtain ⟨hfs, himg⟩ := hw
   simp only at hfs himg
@@ -524,13 +531,13 @@ theorem step_safe_aux (s : St) (op : Op) (hw : WF s) (ha : allowed s op = true) 
 /-- every op of the history is allowed in the state it is applied to (decidable, executable) -/
 def allowedRun : St → List Op → Bool
   | _, [] => true
-  | s, op :: rest => allowed s op && allowedRun (step .base s op).2 rest
+  | s, op :: rest => allowed s op && allowedRun (step .owners s op).2 rest
 
 /-- the property along a history: every step meets its spec, the image is usable after every step (and at the
     end) -/
 def Safe : St → List Op → Prop
   | s, [] => Usable s
-  | s, op :: rest => StepSpec s op (step .base s op) ∧ Usable (step .base s op).2 ∧ Safe (step .base s op).2 rest
+  | s, op :: rest => StepSpec s op (step .owners s op) ∧ Usable (step .owners s op).2 ∧ Safe (step .owners s op).2 rest
 
 theorem safe_of_WF : ∀ (ops : List Op) (s : St), WF s → allowedRun s ops = true → Safe s ops
   | [], s, hw, _ => usable_of_WF hw
@@ -540,18 +547,18 @@ theorem safe_of_WF : ∀ (ops : List Op) (s : St), WF s → allowedRun s ops = t
       exact ⟨hspec, usable_of_WF hw', safe_of_WF rest _ hw' ha.2⟩
 
 theorem run_ok : ∀ (ops : List Op) (s : St), WF s → allowedRun s ops = true →
-    (∀ o ∈ (run .base s ops).1, o ≠ .bad) ∧ (run .base s ops).1.length = ops.length ∧
-      ∃ f, (run .base s ops).2 = some f ∧ WF f
+    (∀ o ∈ (run .owners s ops).1, o ≠ .bad) ∧ (run .owners s ops).1.length = ops.length ∧
+      ∃ f, (run .owners s ops).2 = some f ∧ WF f
   | [], s, hw, _ => ⟨by simp [run], by simp [run], s, rfl, hw⟩
   | op :: rest, s, hw, ha => by
       simp only [allowedRun, Bool.and_eq_true] at ha
       obtain ⟨hspec, hw'⟩ := step_safe_aux s op hw ha.1
       obtain ⟨h1, h2, f, h3, h4⟩ := run_ok rest _ hw' ha.2
-      have hne : (step .base s op).1 ≠ .bad := hspec.1
-      have hrun : run .base s (op :: rest) =
-          ((step .base s op).1 :: (run .base (step .base s op).2 rest).1, (run .base (step .base s op).2 rest).2) := by
+      have hne : (step .owners s op).1 ≠ .bad := hspec.1
+      have hrun : run .owners s (op :: rest) =
+          ((step .owners s op).1 :: (run .owners (step .owners s op).2 rest).1, (run .owners (step .owners s op).2 rest).2) := by
         rw [run]
-        generalize step .base s op = r at hne
+        generalize step .owners s op = r at hne
         obtain ⟨o, s'⟩ := r
         cases o <;> first | rfl | exact absurd rfl hne
       rw [hrun]
